@@ -246,7 +246,15 @@ def _run_case(spec):
                                 'gamma': pitgen.frac_list(l.dilation_masker.gamma),
                                 'frozen': not isinstance(l.timestep_masker.beta, nn.Parameter)}
             a['time'] = tinfo
-            a['request'] = '%s|%s|full=%d' % (pitgen.render(prog, shapes_rec, excl, layer_info), ';'.join(alphas), int(full))
+            rendered = pitgen.render(prog, shapes_rec, excl, layer_info)
+            if rendered is not None:
+                a['request'] = '%s|%s|full=%d' % (rendered, ';'.join(alphas), int(full))
+            # the train_* switches must not influence what is evaluated or exported
+            flags = spec.get('flags')
+            if flags == 'random':
+                a['flags'] = {k: rng.random() < .5 for k in ('train_features', 'train_rf', 'train_dilation')}
+                for k, v in a['flags'].items():
+                    setattr(pit, k, v)
             # oracle: eval vs export
             try:
                 with torch.no_grad():
@@ -326,6 +334,9 @@ def _run_case(spec):
                     plan[i]['d_opt'] = layers[i].dilation_opt[0]
                     plan[i]['time_mask'] = ''.join(str(int(b)) for b in layers[i].time_mask)
             a['plan'] = plan
+            if spec.get('flags') == 'random':
+                for k in ('train_features', 'train_rf', 'train_dilation'):
+                    setattr(pit, k, True)
             a['assign_done'] = True
             res['assign'].append(a)
     except Exception as ex:
